@@ -14,7 +14,7 @@ STUB = ["environment (SimEnv, checks bounds)", "reward model (probe)", "sampler 
 ASSUMPTIONS = ["tolerance 1 ulp of max|bound| for policy-driven actions, 0 for sampled (warm-up) actions",
                "'any network output however large' and key-determined noise form are pure clauses and not decided here"]
 TIERS = {"quick": {"runs": 64}, "thorough": {"runs": 1500}}
-REQUIRED = ["actions_in_bounds", "action_on_bound", "target_actions_in_bounds", "smoothing_within_noise_clip", "planner_candidates_in_bounds", "noise0_action_equals_policy", "noise_scale_samples"]
+REQUIRED = ["actions_in_bounds", "action_on_bound", "target_actions_in_bounds", "smoothing_within_noise_clip", "planner_candidates_in_bounds", "noise0_action_equals_policy", "noise_scale_samples", "other_bounds_trained_first_in_process"]
 REQUIRED_QUICK = ["actions_in_bounds", "target_actions_in_bounds", "planner_candidates_in_bounds"]
 CHUNK = 24  # TrainSim plans per fresh worker process
 SHRINK_LISTS = [["env", "script"]]
@@ -31,6 +31,11 @@ def make_plan(rng, tier, index):
         lo, hi = rng.choice([([-1.0, 0.0], [2.0, 0.25]), ([-2.0, -0.5], [2.0, 0.5]), ([0.5, -3.0, 10.0], [1.0, 3.0, 11.0])])
         plan["env"]["low"], plan["env"]["high"], plan["env"]["act_dim"] = lo, hi, len(lo)
         plan["cfg"]["plan_horizon"] = rng.choice([2, 3])
+    if name in ("ddpg", "td3", "td3_lap", "td7", "mrq") and rng.random() < 0.25:
+        ad = plan["env"]["act_dim"]
+        wide = ([-50.0] * ad, [80.0] * ad)
+        plan["prerun_bounds"] = wide
+        plan["cfg"]["learning_starts"] = min(plan["cfg"].get("learning_starts", 2), 3) if name != "mrq" else plan["cfg"]["learning_starts"]
     plan["supply_targets"] = name in ("td3", "td3_lap") or rng.random() < 0.5
     if "learning_starts" in plan["cfg"] and name not in ("mrq", "pets"):
         plan["cfg"]["learning_starts"] = rng.choice([0, 2, 4])
@@ -80,4 +85,17 @@ def normalise(plan):
 
 
 def execute(plan):
+    if plan.get("prerun_bounds"):
+        # same routine, same shapes and noise settings, but ANOTHER action box, trained briefly first in this process:
+        # what the second run sends to its environment must respect ITS bounds (no state may leak between runs)
+        import json
+        pre = json.loads(json.dumps(plan))
+        pre.pop("prerun_bounds")
+        pre["env"]["low"], pre["env"]["high"] = plan["prerun_bounds"]
+        pre["chain"] = [dict(pre["chain"][0], total_timesteps=min(pre["chain"][0]["total_timesteps"], 8))]
+        pre["clauses"] = []
+        trainsim.execute(pre)
+        res = trainsim.execute(plan)
+        res.fault("other_bounds_trained_first_in_process")
+        return res
     return trainsim.execute(plan)
